@@ -469,7 +469,8 @@ def check_numbering(coarse, fine, all_atom):
                 names = [fine.nodes[m]['atomname'] for m in mem]
                 if len(set(names)) != len(names):
                     out.append(('atomname-not-unique', 'coarse node %r: %s' % (k, names)))
-                elif sorted(idxs) != list(range(min(idxs), min(idxs) + len(idxs))):
+                elif idxs != list(range(min(idxs), min(idxs) + len(idxs))):
+                    # "running index": it runs along the atoms of the coarse node in the order of their keys
                     out.append(('atomname-index-not-running', 'coarse node %r: %s' % (k, names)))
     return out
 
